@@ -63,6 +63,9 @@ def units(tier):
         out.append({'kind': 'typed', 'type': t, 'default': False, 'indices': [130, 17] if tier == 'quick' else [130, 17, 300], 'nvalues': 2})
     out.append({'kind': 'mapper', 'indices': [0, 3], 'depth': 8 if tier == 'quick' else 11})
     out.append({'kind': 'mapper', 'indices': [1, 0], 'depth': 7 if tier == 'quick' else 10})
+    # a mapper store that was (unusually) given a default value: the maps are still fresh and per index
+    out.append({'kind': 'mapper', 'indices': [0, 1], 'depth': 6 if tier == 'quick' else 8, 'mapper_default': 'dict'})
+    out.append({'kind': 'mapper', 'indices': [0, 1], 'depth': 5 if tier == 'quick' else 7, 'mapper_default': 'zero'})
     out.append({'kind': 'manager', 'depth': 6 if tier == 'quick' else 8})
     out.append({'kind': 'sweep', 'upto': 1700 if tier == 'quick' else 5000})
     out.append({'kind': 'churn', 'lives': 260})
@@ -255,7 +258,10 @@ def _mk(name):
 
 
 def new_mapper(unit):
-    return MemoryStore(name='m', data_type='mapper'), {'live': {}, 'handed': []}
+    kw = {}
+    if unit.get('mapper_default'):
+        kw['default_value'] = {} if unit['mapper_default'] == 'dict' else 0
+    return MemoryStore(name='m', data_type='mapper', **kw), {'live': {}, 'handed': []}
 
 
 def mapper_ops(unit, model):
